@@ -562,3 +562,55 @@ Proof.
   destruct (exec_stmt e s ms) as [ms1| |]; bnd; try reflexivity. apply IH.
 Qed.
 End Correct.
+
+(* ====================================================================== whole programs, symbolic operands *)
+Definition venv_ok (te : tenv) (ve : venv) : Prop :=
+  forall x t, lookup te x = Some t -> exists r, lookup ve x = Some r /\ var_name r = Some x.
+
+Lemma gen_vars_spec ds : forall te te' ve evs ve', chk_vars te ds = Some te' -> gen_vars ve ds = (evs, ve') ->
+  venv_ok te ve -> (forall x r, lookup ve x = Some r -> declared te x = true) ->
+  venv_ok te' ve' /\ code evs = [].
+Proof.
+  induction ds as [|d tl IH]; intros te te' ve evs ve' Hk Hg Hv Hdom; simpl in Hk, Hg.
+  - inv Hk. inv Hg. split; [assumption|reflexivity].
+  - destruct (declared te (vname d)) eqn:Ed; [discriminate|].
+    set (r := match vorigin d with
+              | ONone => RVar (vty d) (vname d)
+              | OMeta a k => RVarMeta (vty d) (vname d) (res_acc ve a) k
+              | OBalance a s => RVarBal (vname d) (res_acc ve a) (res_asset ve s)
+              end).
+    assert (var_name r = Some (vname d)) as Hr by (unfold r; destruct (vorigin d); reflexivity).
+    destruct (match vorigin d with ONone => true | OMeta a _ => chk_acc te a | OBalance a s0 => ty_eqb (vty d) TMonetary && chk_acc te a && chk_asset te s0 end); [|discriminate].
+    assert (exists evs0 rest, gen_vars (ve ++ [(vname d, r)]) tl = (rest, ve') /\ evs = evs0 ++ [EAlloc r] ++ rest /\ code evs0 = []) as [evs0 [rest [Hg' [He Hc0]]]].
+    { unfold r. destruct (vorigin d) as [|a k|a s0]; destruct (gen_vars _ tl) as [rest ve''] eqn:Eg; inv Hg.
+      - exists [], rest. repeat split; reflexivity.
+      - exists [EAlloc (res_acc ve a)], rest. repeat split; reflexivity.
+      - exists [EAlloc (res_acc ve a); EAlloc (res_asset ve s0)], rest. repeat split; reflexivity. }
+    destruct (IH _ _ _ _ _ Hk Hg') as [H1 H2].
+    + intros x t Hl. rewrite lookup_app in Hl. rewrite lookup_app. destruct (lookup te x) as [t0|] eqn:E.
+      * inv Hl. destruct (Hv _ _ E) as [r0 [Hr0 Hn0]]. rewrite Hr0. exists r0. auto.
+      * simpl in Hl. destruct (String.eqb (vname d) x) eqn:Ex; [|discriminate]. apply String.eqb_eq in Ex. subst x.
+        destruct (lookup ve (vname d)) as [r0|] eqn:E0.
+        -- specialize (Hdom _ _ E0). congruence.
+        -- simpl. rewrite String.eqb_refl. exists r. auto.
+    + intros x r0 Hl. rewrite declared_app. rewrite lookup_app in Hl. destruct (lookup ve x) as [r1|] eqn:E0.
+      * rewrite (Hdom _ _ E0). reflexivity.
+      * simpl in Hl. destruct (String.eqb (vname d) x); [apply orb_true_r|discriminate].
+    + split; [assumption|]. rewrite He, !code_app, Hc0, H2. reflexivity.
+Qed.
+
+(* executing the code emitted for a checked program, APUSH operands resolved by denotation in the environment of the
+   run, from the initial tracked balances: exactly Sem.exec_stmts; in particular the stack is empty at the end *)
+Theorem exec_gen_correct p te e b0 : chk_vars [] (pvars p) = Some te -> Forall (fun s => chk_stmt te s = true) (pstmts p) ->
+  cons_env te e ->
+  exec (fun r => Some (denote e r)) (code (sp_events (gen p))) {| vstk := []; vbal := b0; vposts := []; vtx := []; vacc := [] |} =
+  do ms <- exec_stmts e (pstmts p) (init_state b0);
+  Ok {| vstk := []; vbal := mbal ms; vposts := List.concat (mposts ms); vtx := mtx ms; vacc := macc ms |}.
+Proof.
+  intros Hk Hs Hc. unfold gen. destruct (gen_vars [] (pvars p)) as [evs ve] eqn:Eg. simpl sp_events.
+  destruct (gen_vars_spec _ _ _ _ _ _ Hk Eg) as [Hve Hcode].
+  { intros x t Hl. discriminate. } { intros x r Hl. discriminate. }
+  rewrite code_app, Hcode. simpl app.
+  pose proof (exec_stmts_correct te e ve Hc Hve (pstmts p) Hs [] [] (init_state b0)) as H. rewrite app_nil_r in H.
+  unfold vm_of in H. simpl in H. rewrite H. destruct (exec_stmts e (pstmts p) (init_state b0)); reflexivity.
+Qed.
